@@ -48,6 +48,9 @@ class CallMixin:
             if len(node.args) != 1 or node.keywords:
                 raise Unsupported('c_uint32 call form {}'.format(unparse(node)))
             return CU32(self.ev(node.args[0], st))
+        if fn in ('reduce', 'functools.reduce') and not (isinstance(f, ast.Name) and f.id in st.env) \
+                and self.imported_from(fn.split('.')[0], 'functools'):
+            return self.reduce_call(node, st)
         if fn in ('namedtuple', 'collections.namedtuple') and not (isinstance(f, ast.Name) and f.id in st.env):
             return self.namedtuple_call(node, st)
         if isinstance(f, ast.Name) and not self.shadowed(f.id, st):
@@ -60,6 +63,9 @@ class CallMixin:
             base = self.ev(f.value, st)
             if st.dead:
                 return None
+            if isinstance(base, dict) and f.attr in ('update', 'setdefault', 'pop') and isinstance(f.value, ast.Name) \
+                    and f.value.id in st.env:
+                return self.local_dict_update(f.value.id, base, f.attr, node, st)
             return self.method(base, f.attr, node, st)
         callee = self.ev(f, st)
         if isinstance(callee, RecordType):
@@ -186,6 +192,62 @@ class CallMixin:
             raise Unsupported('int() call outside the base=0 coercion idiom: {}'.format(unparse(node)))
         return self.coerce(self.ev(node.args[0], st), st, node, caught)
 
+    def local_dict_update(self, name, d, attr, node, st):
+        """d.update(other) / d.setdefault(k, v) / d.pop(k) on a dict held by a local name: rebind the name to a copy"""
+        args, kwargs = self.eval_args(node, st)
+        if st.dead:
+            return None
+        self.unshared(d, name, st, node)
+        nd = dict(d)
+        ret = None
+        if attr == 'update' and len(args) <= 1 and (not args or isinstance(args[0], dict)):
+            if args:
+                nd.update(args[0])
+            nd.update(kwargs)
+        elif attr == 'setdefault' and 1 <= len(args) <= 2 and not kwargs and isinstance(args[0], (int, str)):
+            ret = nd.setdefault(args[0], args[1] if len(args) == 2 else None)
+        elif attr == 'pop' and 1 <= len(args) <= 2 and not kwargs and isinstance(args[0], (int, str)):
+            if args[0] in nd:
+                ret = nd.pop(args[0])
+            elif len(args) == 2:
+                ret = args[1]
+            else:
+                self.raises.append({'node': node, 'fn': self.chain()})
+                st.dead = True
+                return None
+        else:
+            raise Unsupported('method call {}'.format(unparse(node)))
+        st.env[name] = nd
+        return ret
+
+    def reduce_call(self, node, st):
+        args, kwargs = self.eval_args(node, st)
+        if st.dead:
+            return None
+        if kwargs or not 2 <= len(args) <= 3 or not isinstance(args[1], list):
+            raise Unsupported('reduce call form {}'.format(unparse(node)))
+        seq = list(args[1])
+        if len(args) == 3:
+            acc = args[2]
+        elif seq:
+            acc = seq.pop(0)
+        else:
+            self.raises.append({'node': node, 'fn': self.chain()})
+            st.dead = True
+            return None
+        f = args[0]
+        for x in seq:
+            if isinstance(f, Opaque) and isinstance(f.desc, tuple) and f.desc[0] == 'operator':
+                fake = ast.copy_location(ast.BinOp(left=node, op=f.desc[1](), right=node), node)
+                acc = self.binop(fake, acc, x, st)
+            elif isinstance(f, FuncValue):
+                acc = self.run_function(f, [acc, x], {}, st)
+            else:
+                raise Unsupported('reduce with {}'.format(unparse(node.args[0])))
+            if st.dead:
+                return None
+        return acc
+
     # -- methods ---------------------------------------------------------------------------------------------------
     def method(self, base, attr, node, st):
         args, kwargs = self.eval_args(node, st)
@@ -211,6 +273,14 @@ class CallMixin:
             self.raises.append({'node': node, 'fn': self.chain()})
             st.dead = True
             return None
+        if isinstance(base, Record) and attr == '_replace' and base.rtype.is_tuple and not args:
+            if set(kwargs) - set(base.rtype.fields):
+                raise Unsupported('_replace with unknown field: {}'.format(unparse(node)))
+            vals = dict(base.values)
+            vals.update(kwargs)
+            return Record(base.rtype, vals)
+        if isinstance(base, Record) and attr == '_asdict' and base.rtype.is_tuple and not args and not kwargs:
+            return dict(base.values)
         if isinstance(base, dict):
             if attr == 'get' and 1 <= len(args) <= 2 and not kwargs and isinstance(args[0], (str, int)):
                 return base.get(args[0], args[1] if len(args) == 2 else None)
@@ -223,6 +293,30 @@ class CallMixin:
         raise Unsupported('method call {}'.format(unparse(node)))
 
     # -- tables ------------------------------------------------------------------------------------------------------
+    def imported_from(self, name, module):
+        """`name` is bound exactly once at module level, by `import module` / `from module import name`"""
+        if self.model.bind_count.get(name, 0) != 1 or name in self.model.global_decl:
+            return False
+        for s in self.facts.tree.body:
+            if isinstance(s, ast.ImportFrom) and s.module == module and any((a.asname or a.name) == name for a in s.names):
+                return True
+            if isinstance(s, ast.Import) and any((a.asname or a.name) == name and a.name == module for a in s.names):
+                return True
+        return False
+
+    OPERATORS = {'or_': ast.BitOr, 'and_': ast.BitAnd, 'add': ast.Add, 'xor': ast.BitXor, 'lshift': ast.LShift,
+                 'rshift': ast.RShift, 'sub': ast.Sub, 'mul': ast.Mult}
+
+    def operator_value(self, node, st):
+        """operator.or_ / `from operator import or_` used as a value"""
+        if isinstance(node, ast.Name) and node.id not in st.env and node.id in self.OPERATORS \
+                and self.imported_from(node.id, 'operator'):
+            return Opaque(('operator', self.OPERATORS[node.id]))
+        if isinstance(node, ast.Attribute) and isinstance(node.value, ast.Name) and node.value.id == 'operator' \
+                and node.value.id not in st.env and node.attr in self.OPERATORS and self.imported_from('operator', 'operator'):
+            return Opaque(('operator', self.OPERATORS[node.attr]))
+        return None
+
     def is_table_name(self, name, st):
         return name not in st.env and name in self.facts.tables and self.model.bind_count.get(name, 0) >= 1
 
@@ -357,54 +451,32 @@ class CallMixin:
         """Inline a function of the analysed module.  `st` is updated in place to the join of all returning paths;
         st.dead is set when every path raises."""
         fdef = fv.fdef
-        if isinstance(fdef, ast.Lambda):
-            raise Unsupported('call of a lambda')
-        for deco in fdef.decorator_list:
-            # memoisation of a function of its arguments does not change what it returns
-            d = dotted(deco.func if isinstance(deco, ast.Call) else deco)
-            if d not in ('lru_cache', 'functools.lru_cache', 'cache', 'functools.cache'):
-                raise Unsupported('call of decorated function {}'.format(fdef.name))
+        if not isinstance(fdef, ast.Lambda):
+            for deco in fdef.decorator_list:
+                # memoisation of a function of its arguments does not change what it returns
+                d = dotted(deco.func if isinstance(deco, ast.Call) else deco)
+                if d not in ('lru_cache', 'functools.lru_cache', 'cache', 'functools.cache'):
+                    raise Unsupported('call of decorated function {}'.format(fdef.name))
+        name = getattr(fdef, 'name', 'lambda')
         if len(self.fn_stack) > MAX_DEPTH or sum(1 for f in self.def_stack if f is fdef) > 2:
-            raise Unsupported('inlining depth exceeded at {}'.format(fdef.name))
+            raise Unsupported('inlining depth exceeded at {}'.format(name))
+        env = self.bind_params(fv, args, kwargs)
         a = fdef.args
-        if getattr(a, 'posonlyargs', None):
-            raise Unsupported('positional-only parameters in {}'.format(fdef.name))
-        env = dict(fv.cenv or {})
         pos = [p.arg for p in a.args]
-        if len(args) > len(pos):
-            if not a.vararg:
-                raise Unsupported('too many positional arguments for {}'.format(fdef.name))
-            env[a.vararg.arg] = list(args[len(pos):])
-            args = args[:len(pos)]
-        elif a.vararg:
-            env[a.vararg.arg] = []
-        bound = set()
-        for p, v in zip(pos, args):
-            env[p] = v
-            bound.add(p)
         kwonly = [p.arg for p in a.kwonlyargs]
-        extra = {}
-        for k, v in kwargs.items():
-            if k in pos or k in kwonly:
-                if k in bound:
-                    raise Unsupported('{}() got multiple values for {}'.format(fdef.name, k))
-                env[k] = v
-                bound.add(k)
-            elif a.kwarg:
-                extra[k] = v
-            else:
-                raise Unsupported('{}() got unexpected keyword {}'.format(fdef.name, k))
-        if a.kwarg:
-            env[a.kwarg.arg] = extra
-        defaults = dict(zip(pos[len(pos) - len(a.defaults):], a.defaults))
-        kwdefaults = {p: d for p, d in zip(kwonly, a.kw_defaults) if d is not None}
-        for p in pos + kwonly:
-            if p not in bound:
-                d = defaults.get(p, kwdefaults.get(p))
-                if d is None:
-                    raise Unsupported('{}() missing argument {}'.format(fdef.name, p))
-                env[p] = self.default_value(d, fdef)
-        label = fv.label or fdef.name
+        if isinstance(fdef, ast.Lambda):
+            st.stack.append(st.env)
+            st.env = env
+            self.fn_stack.append(fv.label or 'lambda')
+            self.def_stack.append(fdef)
+            try:
+                val = self.ev(fdef.body, st)
+            finally:
+                self.def_stack.pop()
+                self.fn_stack.pop()
+            st.env = st.stack.pop()
+            return None if st.dead else val
+        label = fv.label or name
         st.stack.append(st.env)
         st.env = env
         self.fn_stack.append(label)
@@ -442,10 +514,53 @@ class CallMixin:
                 val.label = '{}<{}>'.format(label, ','.join(str(x) for x in given))
         return val
 
+    def bind_params(self, fv, args, kwargs):
+        fdef = fv.fdef
+        name = getattr(fdef, 'name', 'lambda')
+        a = fdef.args
+        if getattr(a, 'posonlyargs', None):
+            raise Unsupported('positional-only parameters in {}'.format(name))
+        env = dict(fv.cenv or {})
+        pos = [p.arg for p in a.args]
+        if len(args) > len(pos):
+            if not a.vararg:
+                raise Unsupported('too many positional arguments for {}'.format(name))
+            env[a.vararg.arg] = list(args[len(pos):])
+            args = args[:len(pos)]
+        elif a.vararg:
+            env[a.vararg.arg] = []
+        bound = set()
+        for p, v in zip(pos, args):
+            env[p] = v
+            bound.add(p)
+        kwonly = [p.arg for p in a.kwonlyargs]
+        extra = {}
+        for k, v in kwargs.items():
+            if k in pos or k in kwonly:
+                if k in bound:
+                    raise Unsupported('{}() got multiple values for {}'.format(name, k))
+                env[k] = v
+                bound.add(k)
+            elif a.kwarg:
+                extra[k] = v
+            else:
+                raise Unsupported('{}() got unexpected keyword {}'.format(name, k))
+        if a.kwarg:
+            env[a.kwarg.arg] = extra
+        defaults = dict(zip(pos[len(pos) - len(a.defaults):], a.defaults))
+        kwdefaults = {p: d for p, d in zip(kwonly, a.kw_defaults) if d is not None}
+        for p in pos + kwonly:
+            if p not in bound:
+                d = defaults.get(p, kwdefaults.get(p))
+                if d is None:
+                    raise Unsupported('{}() missing argument {}'.format(name, p))
+                env[p] = self.default_value(d, fdef)
+        return env
+
     def default_value(self, d, fdef):
         from .bitstate import State
         tmp = State()
         v = self.ev(d, tmp)
         if tmp.cells or tmp.dead or not self.is_static(v):
-            raise Unsupported('default value of a parameter of {} is not a constant'.format(fdef.name))
+            raise Unsupported('default value of a parameter of {} is not a constant'.format(getattr(fdef, 'name', 'lambda')))
         return v
